@@ -127,7 +127,9 @@ func runC04Case(run *ev.Run, cs c04Case) {
 			if i%50 == 49 {
 				return 2 * time.Millisecond, false
 			}
-			return -time.Duration(i), false // negative waits must behave like zero
+			// negative waits must behave like zero, however far behind they say the attack is: nothing
+			// of them may be carried over into the next positive wait
+			return -time.Duration(i%7) * 3 * time.Millisecond, false
 		}
 		return 0, false
 	}
